@@ -994,15 +994,17 @@ MC_SUBCHECK(a_sched)
   const bool th = mc::thorough();
   for (auto & b : c18::bodies()) {
     Body b2 = b;
-    // 2 threads, preemption bound 2 (quick) / 4 (thorough); warm and first-use variants
+    // 2 threads, preemption bound 3 (quick) / 4 (thorough); warm and first-use variants
     b2.nthreads = 2;
-    run_body(b2, true, th ? 4 : 2, 0, th ? 400000 : 20000);
-    run_body(b2, false, th ? 4 : 2, 0, th ? 400000 : 20000);
+    run_body(b2, true, th ? 4 : 3, 0, th ? 400000 : 20000);
+    run_body(b2, false, th ? 4 : 3, 0, th ? 400000 : 20000);
     if (!th) {
-      // quick: also 3 threads, bound 2
+      // quick: also 3 threads, bound 2, and 4 threads, bound 2 (warm)
       b2.nthreads = 3;
       run_body(b2, true, 2, 0, 20000);
       run_body(b2, false, 2, 0, 20000);
+      b2.nthreads = 4;
+      run_body(b2, true, 2, 0, 20000);
     }
     if (th) {
       // 3 threads, bound 3; 4 threads, bound 2
